@@ -15,17 +15,24 @@ def pregen(check):
     if p.returncode != 0 or "end GeomV.C20" not in p.stdout:
         check.broken.append("table extractor failed on the current source: " + p.stderr.strip()[-300:])
         return
-    path = os.path.join(vcheck.LEAN, "GeomV", "C20", "Tables.lean")
+    # second extractor: struct shapes of SR/datum, the TRANSLATED case bodies of `equal`, the deciding statements of
+    # NewTransform and (*Decoder).SR  ->  EqualGen.lean (tie lemmas in EqualTie.lean)
+    q = subprocess.run([gobin, "equalgen", vcheck.REPO], stdout=subprocess.PIPE, stderr=subprocess.PIPE, text=True)
+    if q.returncode != 0 or "end GeomV.C20" not in q.stdout:
+        check.broken.append("Equal extractor failed on the current source: " + q.stderr.strip()[-300:])
+        return
     with vcheck.Lock("lake"):
-        old = open(path).read() if os.path.exists(path) else ""
-        if old != p.stdout:
-            open(path, "w").write(p.stdout)
-            check.notes.append("Tables.lean regenerated (source tables changed)")
+        for name, text in (("Tables.lean", p.stdout), ("EqualGen.lean", q.stdout)):
+            path = os.path.join(vcheck.LEAN, "GeomV", "C20", name)
+            old = open(path).read() if os.path.exists(path) else ""
+            if old != text:
+                open(path, "w").write(text)
+                check.notes.append(name + " regenerated (source changed)")
 
 
 CFG = {
     "id": "C20",
-    "lean_modules": ["GeomV.C20.Proofs"],
+    "lean_modules": ["GeomV.C20.Proofs", "GeomV.C20.ProofsEqual", "GeomV.C20.ProofsRegistry"],
     "exe": "geomv_c20",
     "go_cmd": "c20",
     "stages": ["go:gen", "lean:prep", "go:impl", "lean:judge"],
@@ -34,11 +41,18 @@ CFG = {
                                  "C20_registry_names", "C20_parse_agree", "C20_parse_agree_tokens", "C20_lex_proj4", "C20_lex_wkt",
                                  "C20_transform_agree", "C20_transform_agree_partial",
                                  "C20_parse_agree_partial", "C20_wkt_parameter_map",
-                                 "C20_wkt_false_origin_metres", "C20_noshift_datum_differs"]],
+                                 "C20_wkt_false_origin_metres", "C20_noshift_datum_differs",
+                                 # phase 3: Equal / NewTransform nil decision / Decoder.SR on REGENERATED definitions
+                                 "C20_equal_regenerated", "C20_nil_iff_equal_regenerated", "C20_equal_trans", "C20_equal_not_trans",
+                                 "C20_equal_not_trans_parsed", "genFloat_eq", "genSlice_eq", "equalSR_eq_walk", "equal_source_pins",
+                                 "newTransform_source_pins", "decoderSR_source_pin",
+                                 # phase 3: every alias over the regenerated registry; what the definitions mean
+                                 "C20_registry_aliases", "C20_registry_alias_equal", "C20_registry_meaning", "registry_defs_parse",
+                                 "aliases_cover"]],
     "level": "proof",
     "trusted_base": [
         "Lean 4.33.0 kernel; axioms of every theorem printed by #print axioms must be within {propext, Classical.choice, Quot.sound}",
-        "model lean/GeomV/C20/Model.lean is tied to /repo/proj by the correspondence run (every field of the parsed SR bit for bit, Equal, nil-ness) on every check; its tables are regenerated from the Go source by the pregen hook",
+        "model lean/GeomV/C20/Model.lean is tied to /repo/proj by the correspondence run (every field of the parsed SR bit for bit, Equal, nil-ness) on every check; its tables, the field lists of SR/datum, the case bodies of `equal` (translated statement by statement) and the deciding statements of NewTransform / (*Decoder).SR (source text) are regenerated from the Go source by the pregen hook",
         "strconv.ParseFloat is correctly rounded (modelled by exact rational rounding); IEEE-754 binary64 arithmetic of Lean's Float equals Go's on amd64 (no fused multiply-add)",
         "harness/cmd/c20 + lean driver + lib/vcheck.py transport inputs faithfully",
     ],
